@@ -321,6 +321,12 @@ func (g *Group) Search(prefix string, cmp SearchFunc) (*GroupReader, bool, error
 		}
 		foundIndex, line, err := scanNext(r, prefix)
 		r.Close()
+		if err == io.EOF {
+			// No line with this prefix at or after curIndex (e.g. the head was rotated
+			// and holds no marker yet): the line, if any, is in an earlier file.
+			maxIndex = curIndex - 1
+			continue
+		}
 		if err != nil {
 			return nil, false, err
 		}
